@@ -25,6 +25,7 @@ CLAIMED = {
     "C15": ("All 5 242 880 hardware-presentable configurations of the CPUID feature bits and OS states the detector reads are injected and the availability flags compared with the property's decision model (exhaustive); the dispatcher is instantiated for about 600 generated architecture lists and run under every relevant availability vector.", "6 C15", "xvcpuid"),
     "C18": ("All allocate/deallocate histories up to length 5 (thorough 6) over a 9-symbol alphabet, for 40 (T, Align) instantiations, executed on the real allocator under AddressSanitizer with a model of live blocks checked after every step; every subset of <= 2 injected posix_memalign failures per history; complete enumeration of the size-overflow window and of the alignment predicates over their residues.", "6 C18", "xvalloc"),
     "C17": ("Every scalar overload of the list is executed on the full operand spaces of C01/C02/C03/C06/C07/C08 (non-NaN operands) under each architecture's compile flags and judged by the same reference model as the batch lanes, so scalar and batch agree wherever the model is single-valued; clip and integer-exponent pow are checked in both forms against one shared model.", "6 C17", "xvdrive"),
+    "C20": ("Exhaustive in the strict sense: for each of the 25 x86/emulated architectures a generated program asserts, at compile time, the geometry of every (architecture, element type, lane count) triple (about 1170 obligations per architecture), the list order against an independent parent table, arch_list::alignment(), make_sized_batch for N = 1..128 and the trait widths; an aligned load at exactly alignment() is executed on every runnable architecture.", "6 C20", "gen/gen_geometry.py"),
 }
 
 REASON_WIP = "check not built yet in this round (design in DESIGN.md section 6); not claimed until its explorer has run to completion on the unchanged tree"
@@ -65,6 +66,8 @@ def main():
              "kind_free_text": "exhaustive enumeration of CPUID/XGETBV configurations through the injected source; generated dispatch programs (gen/gen_dispatch.py)"},
             {"name": "xvalloc", "path": "harness/h_alloc.cpp", "serves_properties": ["C18"],
              "kind_free_text": "explicit-state enumeration of allocator histories on the real code (ASan build), deviation-bounded fault injection by interposing posix_memalign"},
+            {"name": "gen/gen_geometry.py", "path": "gen/gen_geometry.py", "serves_properties": ["C20"],
+             "kind_free_text": "program generator: every (architecture, type, lane-count) triple becomes a static_assert; the compiler enumerates them all"},
             {"name": "xvmath", "path": "engine/xvmath.cpp", "serves_properties": sorted(k for k, v in CLAIMED.items() if "xvmath" in v[2]),
              "kind_free_text": "bounded exhaustive explorer for the elementary functions: complete sweeps of stated argument spaces (all 2^32 float32 arguments in the thorough tier) in two stream orders over every architecture's kernel, ulp-bound and graceful-degradation oracles, MPFR arbiter, loop-tick accounting, hang watchdog"},
             {"name": "xvdrive", "path": "engine/xvdrive.cpp", "serves_properties": sorted(k for k, v in CLAIMED.items() if "xvdrive" in v[2]),
